@@ -192,6 +192,7 @@ func checkTypedUpcastWrapper(c *Ctx, p *Prog, R *BusRoles, rule string) {
 	// the closure passed to register
 	var wrap *ssa.Function
 	var regCall ssa.CallInstruction
+	var helperSite *ssa.Call // RegisterUpcast's call of the helper that builds the closure, if any
 	for _, b := range reg.Blocks {
 		for _, in := range b.Instrs {
 			if ci, ok := in.(ssa.CallInstruction); ok {
@@ -203,6 +204,23 @@ func checkTypedUpcastWrapper(c *Ctx, p *Prog, R *BusRoles, rule string) {
 					}
 					if mc, ok := stripConv(v).(*ssa.MakeClosure); ok {
 						wrap = mc.Fn.(*ssa.Function)
+					}
+					// the closure may be built by an in-package helper that returns it
+					if hc, ok := stripConv(v).(*ssa.Call); ok {
+						sc := hc.Common().StaticCallee()
+						if sc != nil && sc.Origin() != nil {
+							sc = sc.Origin() // a generic helper: read its generic body
+						}
+						if sc != nil && PkgOf(sc) == PkgBus {
+							for _, ret := range returnsOf(sc) {
+								if len(ret.Results) == 1 {
+									if mc, ok := stripConv(ret.Results[0]).(*ssa.MakeClosure); ok {
+										wrap = mc.Fn.(*ssa.Function)
+										helperSite = hc
+									}
+								}
+							}
+						}
 					}
 				}
 			}
@@ -265,16 +283,36 @@ func checkTypedUpcastWrapper(c *Ctx, p *Prog, R *BusRoles, rule string) {
 			}
 			// the returned type is the variable whose value was passed to register as target
 			if regCall != nil {
-				var retCell, wantCell ssa.Value
-				if fv, ok := cellOf(stripConv(ret.Results[1])).(*ssa.FreeVar); ok {
-					if a := cells.freeAlloc[fv]; a != nil {
-						retCell = a
+				var up func(v ssa.Value, site *ssa.Call) ssa.Value
+				up = func(v ssa.Value, site *ssa.Call) ssa.Value {
+					v = stripConv(v)
+					var al *ssa.Alloc
+					switch x := cellOf(v).(type) {
+					case *ssa.FreeVar:
+						al = cells.freeAlloc[x]
+					case *ssa.Alloc:
+						al = x
 					}
+					if al != nil {
+						// a spilled parameter of the helper stands for the helper's argument
+						if ss := cells.stores[al]; len(ss) == 1 {
+							if pr, ok := stripConv(ss[0]).(*ssa.Parameter); ok && site != nil {
+								return up(pr, site)
+							}
+						}
+						return al
+					}
+					if pr, ok := v.(*ssa.Parameter); ok && site != nil {
+						for i, q := range pr.Parent().Params {
+							if q == pr && i < len(site.Common().Args) {
+								return up(site.Common().Args[i], nil)
+							}
+						}
+					}
+					return v
 				}
-				if a, ok := cellOf(stripConv(regCall.Common().Args[2])).(*ssa.Alloc); ok {
-					wantCell = a
-				}
-				if retCell == nil || retCell != wantCell {
+				got, want := up(ret.Results[1], helperSite), up(regCall.Common().Args[2], nil)
+				if _, isConst := got.(*ssa.Const); isConst || got != want {
 					okRets = false
 				}
 			}
